@@ -54,6 +54,14 @@ func c03Gen(r *RNG, id string, agg bool) *Case {
 			seqs = append(seqs, mutateSeq(r, ref, sym17, 1, 4, true))
 		}
 	}
+	if !agg && r.Chance(1, 150) {
+		// one unwrapped line per sequence, longer than bufio.Scanner's default 64 KiB token
+		w := 66000 + r.Intn(9000)
+		ref = randSeq(r, w, symACGT, false)
+		names = []string{"long1", "long2"}
+		seqs = []string{mutateSeq(r, ref, symACGT, 1, 3000, false), mutateSeq(r, ref, "ACGTN-R", 1, 2500, true)}
+		c.Tag("line-longer-than-64KiB")
+	}
 	hard := r.Bool()
 	c.SetBool("hard", hard).Set("ref", ref).Set("names", strings.Join(names, ",")).Set("seqs", strings.Join(seqs, ","))
 	c.SetBool("agg", agg)
